@@ -1,4 +1,4 @@
-From PG Require Import Lib.Strs Corr.Driver Model.Union.
+From PG Require Import Lib.Strs Corr.Driver Model.Union Model.UnionHist.
 From Coq Require Import ZArith.
 
 Fixpoint value_eqb (a b : value) {struct a} : bool :=
@@ -50,3 +50,9 @@ Definition guards (c : ty * json) : list bool :=
   let b := blame_of (fst c) (snd c) in [negb (b_a b); negb (b_b b); negb (b_d b)].
 Definition run (cases : list ((ty * json) * obs)) : list N :=
   report obs_eqb model_obs guards cases.
+
+(* F14f: a process = successive calls through one converter; bit1 = the order-consistency guard fails *)
+Definition model_hist (rqs : list (ty * json)) : list obs :=
+  map (fun r => match r with Ok v => Ok (v, unstructure v) | Err => Err end) (UnionHist.run empty_state rqs).
+Definition run_hist (cases : list (list (ty * json) * list obs)) : list N :=
+  report (list_eqb obs_eqb) model_hist (fun rqs => [consistentb (map fst rqs)]) cases.
